@@ -6,6 +6,7 @@ import (
 	"os"
 	"path/filepath"
 	"reflect"
+	"syscall"
 	"testing"
 
 	crashfs "verif/ref/crashfs"
@@ -139,6 +140,55 @@ func TestErrorsAreReal(t *testing.T) {
 	}
 	if k, _ := rawfs.Lkind(l); k != rawfs.Absent {
 		t.Fatal("RemoveAll of a symlink left it")
+	}
+}
+
+// A placed fault: the step is not performed, the error comes back unchanged,
+// the multi-step call stops there, the step is counted and observed.
+func TestFault(t *testing.T) {
+	c, root := setup(t)
+	var labels []string
+	c.Observe = func(ev ctl.Event) {
+		l := ev.Label
+		if ev.Err != nil {
+			l += "!"
+		}
+		labels = append(labels, l)
+	}
+	d := filepath.Join(root, "d")
+	f := filepath.Join(d, "f")
+	eio := &os.PathError{Op: "inject", Path: "x", Err: syscall.EIO}
+	c.Begin()
+	c.Fail(2, eio)
+	if err := crashfs.MkdirAll(d, crashfs.ModePerm); err != nil {
+		t.Fatal(err)
+	}
+	err := crashfs.WriteFile(f, []byte("0123456789"), crashfs.ModePerm) // create ok, half fails, rest skipped
+	if err != error(eio) || c.Failed() != "WriteFile#1.half" {
+		t.Fatalf("fault not delivered: %v / %q", err, c.Failed())
+	}
+	if data, ok, _ := rawfs.ReadRegular(f); !ok || data != "" {
+		t.Fatalf("failed step was performed: %q", data)
+	}
+	if err := crashfs.Symlink(d, filepath.Join(root, "l")); err != nil { // one fault only
+		t.Fatal(err)
+	}
+	want := []string{"MkdirAll", "WriteFile#1.create", "WriteFile#1.half!", "Symlink"}
+	if !reflect.DeepEqual(labels, want) || c.Steps() != 4 {
+		t.Fatalf("steps %v (%d), want %v", labels, c.Steps(), want)
+	}
+	// failing a RemoveAll entry leaves the rest of the directory
+	c.Begin()
+	c.Fail(0, eio)
+	if err := crashfs.RemoveAll(d); err != error(eio) {
+		t.Fatalf("RemoveAll: %v", err)
+	}
+	if k, _ := rawfs.Lkind(f); k != rawfs.Regular {
+		t.Fatal("failed RemoveAll removed the entry")
+	}
+	c.Begin()
+	if c.Failed() != "" {
+		t.Fatal("Begin does not clear the fault")
 	}
 }
 
